@@ -185,6 +185,9 @@ func r27SharedData(c *core.Ctx) {
 	if len(sources) < 1 {
 		c.Bad(R, "columns-uses", token.NoPos, "no call of Feature.Columns() reachable from a Target.WriteFeatures implementation (floor 1): the writer no longer writes attributes, or the rule lost its anchor")
 	}
+	// (c) the per-tile-matrix wrapper is handed to another goroutine: its fields are written only while it is
+	// being constructed, on a fresh allocation, by its constructor
+	r27WrapperImmutable(c, pl)
 	// canary: the rule must flag the textbook positive on every run
 	cfuncs, cidx, err := core.LoadCanary("sharedslice")
 	if err != nil {
@@ -206,6 +209,48 @@ func r27SharedData(c *core.Ctx) {
 			}
 		}
 	}
+}
+
+func r27WrapperImmutable(c *core.Ctx, pl *pipeline) {
+	const R = "R27"
+	ctor := c.Anchor(R, "processing.wrapFeatureForTileMatrix")
+	if ctor == nil {
+		return
+	}
+	n := 0
+	bad := ""
+	for _, fn := range pl.funcs {
+		for _, b := range fn.Blocks {
+			for _, in := range b.Instrs {
+				st, ok := in.(*ssa.Store)
+				if !ok {
+					continue
+				}
+				fa, ok := st.Addr.(*ssa.FieldAddr)
+				if !ok {
+					continue
+				}
+				pt, _ := fa.X.Type().Underlying().(*types.Pointer)
+				if pt == nil || core.TypeShort(pt.Elem()) != "processing.featureForTileMatrixWrapper" {
+					continue
+				}
+				n++
+				_, fresh := fa.X.(*ssa.Alloc)
+				if fn != ctor.SSA || !fresh {
+					bad += fmt.Sprintf("field store %s in %s @%s; ", st.String(), fn.Name(), c.P.Pos(st.Pos()))
+				}
+			}
+		}
+	}
+	// the constructor hands out a fresh wrapper on every call
+	ea := newEffAnalysis(c.P)
+	sum := ea.summary(ctor.SSA)
+	if !sum.returnsFresh || len(sum.globals) > 0 || len(sum.comm) > 0 {
+		bad += fmt.Sprintf("wrapFeatureForTileMatrix does not simply return a fresh wrapper (fresh=%v globals=%v comm=%v); ", sum.returnsFresh, sum.globals, sum.comm)
+	}
+	c.Check(R, "wrapper-written-only-at-construction/processing.featureForTileMatrixWrapper", ctor.Decl.Pos(), bad == "" && n >= 3,
+		fmt.Sprintf("%d field stores, all in the constructor on a fresh allocation that is returned", n),
+		"a wrapped feature is mutated or recycled after it may have been sent to the router/target goroutines (unsynchronised shared data; a target sees another feature's id, attributes or geometry): "+bad)
 }
 
 // ---------------------------------------------------------------- R28
@@ -694,6 +739,44 @@ func r30MultiPolygonMerge(c *core.Ctx) {
 	retOK := false
 	if last, ok := f.Decl.Body.List[len(f.Decl.Body.List)-1].(*ast.ReturnStmt); ok && len(last.Results) == 1 {
 		retOK = resMap != nil && core.ObjOf(info, last.Results[0]) == resMap
+	}
+	// nothing else writes the result map: a key exists only if at least one polygon was appended under it
+	// ("not at all otherwise": processFeatures sends one feature per key of this map)
+	if f.SSA != nil {
+		var resVal ssa.Value
+		for _, b := range f.SSA.Blocks {
+			for _, in := range b.Instrs {
+				if ret, ok := in.(*ssa.Return); ok && len(ret.Results) == 1 {
+					resVal = ret.Results[0]
+				}
+			}
+		}
+		bad := ""
+		n := 0
+		if resVal != nil && resVal.Referrers() != nil {
+			for _, r := range *resVal.Referrers() {
+				mu, ok := r.(*ssa.MapUpdate)
+				if !ok || mu.Map != resVal {
+					continue
+				}
+				n++
+				call, isCall := mu.Value.(*ssa.Call)
+				okv := false
+				if isCall {
+					if _, isApp := isBuiltinCall(call, "append"); isApp && len(sliceLitElems(call.Call.Args[1])) >= 1 {
+						if lk, ok := call.Call.Args[0].(*ssa.Lookup); ok && lk.X == resVal && lk.Index == mu.Key {
+							okv = true
+						}
+					}
+				}
+				if !okv {
+					bad += fmt.Sprintf("%s @%s; ", mu.String(), c.P.Pos(mu.Pos()))
+				}
+			}
+		}
+		c.Check(R, "result-has-only-non-empty-entries/"+f.Name, f.Decl.Pos(), bad == "" && n >= 1,
+			"every write to the result map is out[k] = append(out[k], polygon): a tile matrix is present only with at least one polygon",
+			"the per-tile-matrix result of a multipolygon can contain an entry without geometry (the feature is then delivered, empty, to a target that should not get it at all): "+bad)
 	}
 	c.Check(R, "parts-merged-per-tile-matrix/"+f.Name, mid.Pos(), okAppend && retOK,
 		"each resulting polygon is appended to out[tmID] with the key of the same iteration, and out is returned", "resulting polygons are not appended per tile matrix under the key they were produced for (geometry of one tile matrix delivered to another)")
